@@ -972,6 +972,16 @@ func (env *SpecEnv) call(x *CExpr) (SVal, error) {
 		j := fmt.Sprintf("q!se%d", e.nfresh)
 		return SVal{T: fmt.Sprintf("(and (= (slen %s) (slen %s)) (forall ((%s Int)) (=> (and (<= 0 %s) (< %s (slen %s))) (= (sat %s %s) (sat %s %s)))))",
 			a.T, b.T, j, j, j, a.T, a.T, j, b.T, j), Typ: boolT, Sort: "Bool"}, nil
+	case "arrayof": // arrayof(p): the whole backing array of slice p (as a value)
+		a, err := argv(0)
+		if err != nil {
+			return SVal{}, err
+		}
+		if a.Sort != "Slice" || a.Typ == nil {
+			return SVal{}, fmt.Errorf("arrayof: not a slice")
+		}
+		el := a.Typ.Underlying().(*types.Slice).Elem()
+		return SVal{T: app("select", env.heapOf(W.elemComp(el)), app("sbase", a.T)), Sort: "(Array Int " + W.sortOf(el) + ")", ElemTyp: el}, nil
 	case "unchangedArray": // unchangedArray(p): the whole backing array of slice p is as in the old state
 		a, err := argv(0)
 		if err != nil {
